@@ -1,5 +1,7 @@
 #!/bin/sh
-# usage: tools/seed_import.sh <ID> <worktree> [name]
+# usage: [REV=<repo commit>] tools/seed_import.sh <ID> <worktree> [name]
+# REV defaults to the commit recorded in the seed's meta.json ("applies_to_repo_commit") when re-verifying an imported
+# seed, else to HEAD: later fix: commits in /repo may have rewritten the lines a seed patch touches.
 # Import a sub-agent's breaking change from its scratch worktree into /verif/seeded/<name>/ and verify it:
 #  - demo.py exits 0 on the unmodified tree and 1 with the change
 #  - the library's own test-suite passes with the change
@@ -14,10 +16,15 @@ if [ "$wt" != "-" ]; then   # "-" = re-verify an already imported seed
   [ -f "$wt/NOTES.md" ] && cp "$wt/NOTES.md" "$dst/NOTES.md"
 fi
 [ -s "$dst/patch.diff" ] || { echo "empty diff"; exit 2; }
+rev="${REV:-}"
+if [ -z "$rev" ] && [ -f "$dst/meta.json" ]; then
+  rev=$(/venv/bin/python -c "import json,sys;print(json.load(open('$dst/meta.json')).get('applies_to_repo_commit') or 'HEAD')")
+fi
+rev="${rev:-HEAD}"
 base=$(mktemp -d /tmp/vf_seed.XXXXXX); mod=$(mktemp -d /tmp/vf_seed.XXXXXX)
 trap 'rm -rf "$base" "$mod"' EXIT
-git -C /repo archive HEAD src tests pyproject.toml | tar -x -C "$base"
-git -C /repo archive HEAD src tests pyproject.toml | tar -x -C "$mod"
+git -C /repo archive "$rev" src tests pyproject.toml | tar -x -C "$base"
+git -C /repo archive "$rev" src tests pyproject.toml | tar -x -C "$mod"
 (cd "$mod" && patch -s -p1 < "$dst/patch.diff")
 set +e
 (cd "$base" && PYTHONPATH="$base/src" /venv/bin/python "$dst/demo.py" > "$dst/demo_unmodified.log" 2>&1); rc0=$?
